@@ -2,6 +2,7 @@ package props
 
 import (
 	"fmt"
+	"go/token"
 	"go/types"
 	"strings"
 
@@ -37,6 +38,7 @@ func c16(r *core.Run) {
 	r.Rule("D2", "logger: the in-memory logger's buffer and log.Logger are used only with the logger's mutex held (configuration setters aside)", 2)
 	r.Rule("D3", "mock store: the resource map is accessed only by transaction methods (alive only between Read/Write and Close) and the configuration helper Add", 2)
 	r.Rule("A2", "group confinement (premise of 'state touched only from a group's callbacks needs no user synchronisation'): the lookup of a group's pending work item and the register/append that follows are one critical section (same obligations as C01.A2); otherwise two producers create two work items for one group, two workers run the group's callbacks at once and handler state races", 4)
+	r.Rule("O1", "request objects own their memory: in every function that builds a request object (Request, queryRequest, getRequest) each store into a field of the request or of its resource part goes to memory allocated in that function - not through a pointer into a longer-lived object (the query event, the service); requests of one query event or Parallel resource are processed concurrently, so a write through such a pointer is an unsynchronised write to shared state", 3)
 	r.Rule("V1", "no shared loop variable: a closure created in a loop and handed on does not capture a variable the loop re-assigns", 1)
 
 	a, e := queueEngine(r, "D1")
@@ -245,6 +247,95 @@ func c16(r *core.Run) {
 	}
 	if wOK {
 		r.OK("D3", "store/mockstore", "map-writes-only-in-write-transactions", "-", "writes happen under the exclusive lock")
+	}
+
+	// ---- O1 --------------------------------------------------------------
+	{
+		reqTypes := map[string]bool{"Request": true, "queryRequest": true, "getRequest": true, "resource": true}
+		// fresh: the address denotes memory allocated in this function
+		var fresh func(fn *ssa.Function, addr ssa.Value, d int) (bool, string)
+		fresh = func(fn *ssa.Function, addr ssa.Value, d int) (bool, string) {
+			if d > 8 {
+				return false, "too deep"
+			}
+			switch x := addr.(type) {
+			case *ssa.Alloc:
+				return true, ""
+			case *ssa.FieldAddr:
+				return fresh(fn, x.X, d+1)
+			case *ssa.IndexAddr:
+				return fresh(fn, x.X, d+1)
+			case *ssa.UnOp:
+				if x.Op != token.MUL {
+					return false, valDesc(x)
+				}
+				// a pointer loaded from a field of a fresh object: every value stored there must be fresh
+				fa, ok := x.X.(*ssa.FieldAddr)
+				if !ok {
+					return false, "pointer loaded from " + valDesc(x.X)
+				}
+				if ok, why := fresh(fn, fa.X, d+1); !ok {
+					return false, why
+				}
+				n := 0
+				for _, b := range fn.Blocks {
+					for _, in := range b.Instrs {
+						st, ok := in.(*ssa.Store)
+						if !ok {
+							continue
+						}
+						fb, ok := st.Addr.(*ssa.FieldAddr)
+						if !ok || fb.X != fa.X || fb.Field != fa.Field {
+							continue
+						}
+						n++
+						if ok, why := fresh(fn, st.Val, d+1); !ok {
+							return false, "the pointer member is set to " + valDesc(st.Val) + " (" + why + ")"
+						}
+					}
+				}
+				if n == 0 {
+					return false, "pointer member never set here"
+				}
+				return true, ""
+			case *ssa.Parameter, *ssa.FreeVar:
+				return false, "memory of " + valDesc(x)
+			}
+			return false, valDesc(addr)
+		}
+		nChecked := 0
+		for _, fn := range root {
+			builds := false
+			for _, b := range fn.Blocks {
+				for _, in := range b.Instrs {
+					if al, ok := in.(*ssa.Alloc); ok && al.Heap {
+						tn := core.TypeName(al.Type())
+						if tn == "Request" || tn == "queryRequest" || tn == "getRequest" {
+							builds = true
+						}
+					}
+				}
+			}
+			if !builds {
+				continue
+			}
+			for _, b := range fn.Blocks {
+				for _, in := range b.Instrs {
+					st, ok := in.(*ssa.Store)
+					if !ok {
+						continue
+					}
+					f, ok := core.FieldOf(st.Addr)
+					if !ok || !reqTypes[f.Struct] {
+						continue
+					}
+					nChecked++
+					isFresh, why := fresh(fn, st.Addr, 0)
+					r.Check(isFresh, "O1", core.FuncName(fn), "store("+f.String()+")-targets-request-owned-memory", p.InstrPos(st), "written into the request object allocated here", "this store goes through a pointer into a longer-lived object ("+why+"): concurrent requests of the same query event / Parallel resource write the same memory without synchronisation (data race; a callback can see another request's data)")
+				}
+			}
+		}
+		r.Analysed["request_field_stores_checked"] = nChecked
 	}
 
 	// ---- V1 --------------------------------------------------------------
